@@ -172,6 +172,12 @@ class Transformer(ast.NodeTransformer):
             left = right
         return ast.copy_location(ast.Call(_rt('and_'), [_thunk(p) for p in parts], []), node)
 
+    def visit_Call(self, node):
+        self.generic_visit(node)
+        if isinstance(node.func, ast.Attribute) and node.func.attr == 'join' and len(node.args) == 1 and not node.keywords:
+            return ast.copy_location(ast.Call(_rt('join'), [node.func.value, node.args[0]], []), node)
+        return node
+
     # ---- (4) (5)
     def visit_FunctionDef(self, node):
         self.fn_stack.append(node.name)
